@@ -1086,7 +1086,8 @@ Proof.
     destruct (subscribe (crash w1)) as [w2 c2] eqn:E2. cbn [fst].
     replace w2 with (fst (subscribe (crash w1))) by (rewrite E2; reflexivity).
     apply invQ_subscribe; [|reflexivity].
-    destruct H1 as [U [PL [RL [EL ML]]]]. unfold InvQ, crash. cbn. repeat split.
+    destruct H1 as [U [PL [RL [EL ML]]]]. unfold InvQ, crash. cbn.
+    split; [|split; [|split; [|split]]].
     + intros t s [].
     + intros t s [].
     + intros r [].
@@ -1108,7 +1109,7 @@ Qed.
 
 Lemma invQ_boot fo : InvQ (boot fo).
 Proof.
-  unfold InvQ, boot. cbn. repeat split.
+  unfold InvQ, boot. cbn. split; [|split; [|split; [|split]]].
   - intros t s [].
   - intros t s [].
   - intros r [].
@@ -1176,4 +1177,93 @@ Lemma witness_refutes :
 Proof.
   intros G St. specialize (St c18_witness witness_no_tamper). rewrite witness_spares, G in St.
   discriminate.
+Qed.
+
+(* ---------- every task alive before the restart receives KILL ---------- *)
+Lemma drain_kills n : forall w,
+  w_roster w = [] -> pend_live (w_pending w) -> length (w_pending w) = n ->
+  forall t s, In (t, s) (w_pending w) -> In (CKill t) (calls_of w (repeat OAnswer n)).
+Proof.
+  induction n as [|n IH]; intros w R P L t s H.
+  - destruct (w_pending w); [destruct H|discriminate].
+  - cbn [repeat]. rewrite calls_cons. cbn [step]. apply in_or_app.
+    unfold answer. destruct (w_pending w) as [|[t0 s0] rest] eqn:EP; [discriminate|].
+    assert (Ks : memN s0 recon_kill_states = true).
+    { apply live_state_is_killed. apply (P t0 s0). left. reflexivity. }
+    rewrite Ks, R. cbn [in_roster existsb andb negb]. rewrite andb_false_r. cbn [negb fst snd].
+    destruct H as [H|H].
+    + inversion H; subst. left. left. reflexivity.
+    + right. apply (IH _) with (s := s).
+      * cbn. reflexivity.
+      * cbn. intros t1 s1 Q. apply (P t1 s1). right. exact Q.
+      * cbn. cbn in L. lia.
+      * cbn. exact H.
+Qed.
+
+Lemma master_kill_keeps ts m x :
+  In x m -> mt_alive x = true ->
+  memN (mt_id x) ts = true \/ In x (master_kill ts m).
+Proof.
+  intros Hx A. destruct (memN (mt_id x) ts) eqn:M; [left; reflexivity|right].
+  unfold master_kill. apply in_map_iff. exists x. rewrite M. auto.
+Qed.
+
+Lemma cleanup_keeps w x :
+  In x (w_master w) -> mt_alive x = true ->
+  In (CKill (mt_id x)) (snd (cleanup w)) \/ In x (w_master (fst (cleanup w))).
+Proof.
+  intros Hx A. cbn.
+  destruct (master_kill_keeps
+              (kill_set (filter (fun r => match rt_env r with None => true | Some _ => false end) (w_roster w)))
+              (w_master w) x Hx A) as [K|K].
+  - left. apply in_map. apply memN_In. exact K.
+  - right. exact K.
+Qed.
+
+Lemma prephase_keeps w p k x :
+  In x (w_master w) -> mt_alive x = true ->
+  In (CKill (mt_id x)) (snd (prephase w p k)) \/ In x (w_master (fst (prephase w p k))).
+Proof.
+  intros Hx A. destruct p; cbn [prephase].
+  - right. exact Hx.
+  - destruct (cleanup_keeps w x Hx A) as [K|K]; [left|right]; exact K.
+  - unfold create. destruct (cleanup_keeps w x Hx A) as [K|K]; cbn in K |- *.
+    + left. apply in_or_app. left. exact K.
+    + right. apply in_or_app. left. exact K.
+  - unfold create. destruct (cleanup_keeps w x Hx A) as [K|K]; cbn in K |- *.
+    + left. apply in_or_app. left. exact K.
+    + right. apply in_or_app. left. exact K.
+Qed.
+
+Lemma restart_kill_calls ops p k x :
+  no_tamper ops = true ->
+  let w := after (boot true) ops in
+  In x (w_master w) -> mt_alive x = true ->
+  In (CKill (mt_id x)) (snd (hstep w (OCrash p k))).
+Proof.
+  intros T w Hx A.
+  assert (I1 : Inv1 w) by (apply inv1_run; [exact T|apply inv1_boot]).
+  assert (L0 : live_ok (w_master w)) by (apply live_ok_run; unfold boot; cbn; intros y []).
+  unfold hstep. rewrite step_crash.
+  pose proof (inv1_prephase w p k I1) as I1'. pose proof (live_ok_prephase w p k L0) as L1.
+  pose proof (prephase_keeps w p k x Hx A) as K.
+  destruct (prephase w p k) as [w1 c1]. cbn [fst snd] in I1', L1, K.
+  destruct I1' as [F [M [S FA]]].
+  destruct (subscribe (crash w1)) as [w2 c2] eqn:E2.
+  assert (W2 : w2 = fst (subscribe (crash w1))) by (rewrite E2; reflexivity).
+  destruct (run w2 (repeat OAnswer (length (w_pending w2)))) as [w3 c3] eqn:E3. cbn [snd].
+  destruct K as [K|K].
+  - apply in_or_app. left. apply in_or_app. left. exact K.
+  - apply in_or_app. right.
+    change c3 with (snd (w3, c3)). rewrite <- E3.
+    apply (drain_kills (length (w_pending w2)) w2) with (s := mt_state x).
+    + subst w2. reflexivity.
+    + subst w2. unfold subscribe, crash. cbn. rewrite F, S. cbn.
+      intros t s Hts. unfold snapshot in Hts. apply in_map_iff in Hts. destruct Hts as [y [E Hy]].
+      apply filter_In in Hy. destruct Hy as [Hy B]. apply andb_true_iff in B. inversion E; subst.
+      apply L1; [exact Hy|apply B].
+    + reflexivity.
+    + subst w2. unfold subscribe, crash. cbn. rewrite F, S. cbn.
+      unfold snapshot. apply in_map_iff. exists x. split; [reflexivity|].
+      apply filter_In. split; [exact K|]. rewrite A, (FA x K). reflexivity.
 Qed.
